@@ -250,9 +250,10 @@ def check_comments(before, after, rule):
         return None
     mod = rule.__class__.__module__
     bases = " ".join(c.__module__ for c in rule.__class__.__mro__)
-    if mod.startswith("vsg.rules.comment.") or mod.startswith("vsg.rules.block_comment.") or "whitespace" in mod and False:
-        # documented normalisation: spacing after the comment dashes; text after the dashes is kept
-        if len(a) == len(b) and all(x.lstrip("-").strip() == y.lstrip("-").strip() or x == y for x, y in zip(a, b)):
+    if mod.startswith("vsg.rules.comment.") or mod.startswith("vsg.rules.block_comment.") or mod == "vsg.rules.whitespace.rule_002":
+        # documented normalisations: spacing after the comment dashes (comment rules), tab replacement (whitespace_002):
+        # nothing but white space inside the comment may change
+        if len(a) == len(b) and all("".join(x.split()) == "".join(y.split()) for x, y in zip(a, b)):
             return None
     if "remove_comments_from_end_of_lines" in bases or "multiline_structure" in bases or "multiline_simple_structure" in bases or "multiline_array" in bases:
         # documented removers: may drop comments, must not alter or reorder the rest
@@ -534,10 +535,14 @@ def fix_run(args):
         if os.path.basename(path).startswith("gen_"):
             stats["final_lines"] = out_lines
         stats["seconds"] = round(time.time() - t0, 2)
-        if opts.get("c08", True) and out_lines:
-            _check_reparse(oFile, oRules, oConfig, out_lines, path, cfgname, probs, K)
-        if opts.get("c09", True) and stats["changed"]:
-            _check_converges(out_lines, path, cfgname, probs)
+        try:
+            if opts.get("c08", True) and out_lines:
+                _check_reparse(oFile, oRules, oConfig, out_lines, path, cfgname, probs, K)
+            if opts.get("c09", True) and stats["changed"]:
+                _check_converges(out_lines, path, cfgname, probs)
+        except Exception as e:  # noqa: raised by VSG while re-reading / re-checking its own output
+            tb = traceback.extract_tb(e.__traceback__)[-1]
+            probs["C19"].append(("", "re-reading or re-checking the fixed text raised %s: %s at %s:%d" % (type(e).__name__, e, os.path.basename(tb.filename), tb.lineno)))
     finally:
         signal.alarm(0)
         rule.Rule.fix, rule.Rule.analyze = orig_fix, orig_analyze
